@@ -99,7 +99,9 @@ PRELUDE = '''From Coq Require Import List NArith ZArith Init.Byte.
 From HL7 Require Import Lib.Str Model.Ec Model.Result Model.Ref Model.Tree Model.Parser Model.Encode Model.Leaf Model.MsgTree Model.Validate Gen.Params.
 From HL7 Require Gen.%(mod)s.
 Import ListNotations. Open Scope bs_scope.
-Definition t := Gen.%(mod)s.tables.
+(* the generated tables with the entries these cases need copied to the front: every lookup is unchanged
+   (Proofs/ValidateFacts.v: slookup_front / front_tables_lookups) *)
+Definition t := front_tables %(segs)s %(dts)s Gen.%(mod)s.tables.
 Definition v : str := %(v)s.
 Definition e : ec := %(ec)s.
 Definition lenc := leaf_enc v TOLERANT e.
@@ -149,11 +151,29 @@ def coq_strs(xs):
     return '[' + '; '.join(coq_str(x) for x in xs) + ']'
 
 
-def prelude(v, ec=None):
-    return PRELUDE % {'mod': S.modname(v), 'v': coq_str(v), 'ec': S.ec_term(ec or default_ec(v))}
+def reachable_datatypes(ref, acc, depth=0):
+    if isinstance(ref, (tuple, list)) and len(ref) > 2 and isinstance(ref[2], str):
+        acc.add(ref[2])
+    if is_seq(ref) and depth < 3:
+        for row in ref[1]:
+            if isinstance(row, (tuple, list)) and len(row) == 4:
+                reachable_datatypes(row[1], acc, depth + 1)
 
 
-def run_segment_model(run, cases, per_file=120, check_linked=False):
+def prelude(v, ec=None, texts=()):
+    """texts: the segment lines of the file (their segments' fields and datatypes go to the front)"""
+    lib = hl7apy.load_library(v)
+    segs = sorted({t[:3].upper() for t in texts if is_model_str(t[:3])})
+    dts = set()
+    for sn in segs:
+        if S.ok_segment(lib, sn):
+            reachable_datatypes(lib.SEGMENTS[sn], dts)
+    dts = sorted(d for d in dts if is_model_str(d) and '"' not in d)
+    return PRELUDE % {'mod': S.modname(v), 'v': coq_str(v), 'ec': S.ec_term(ec or default_ec(v)),
+                      'segs': coq_strs(segs), 'dts': coq_strs(dts)}
+
+
+def run_segment_model(run, cases, per_file=150, check_linked=False):
     """cases: dicts {v, text, code, keys, nlen}.  Returns (number evaluated, number of trees outside
     the theorem's domain); disagreements are recorded on `run`."""
     byv = {}
@@ -178,7 +198,7 @@ def run_segment_model(run, cases, per_file=120, check_linked=False):
                     flat_cases.append(c)
                     rows.append('(%s, %d%%nat, %s, %d%%nat)' % (coq_str(c['text']), c['code'], coq_strs(c['keys']), c['nlen']))
                 gtxt.append('(%s, [\n%s])' % (coq_str(key), ';\n'.join(rows)))
-            L = [prelude(v), SEG_PART,
+            L = [prelude(v, texts=[c['text'] for c in flat_cases]), SEG_PART,
                  'Definition groups : list (str * list seg_case) := [\n' + ';\n'.join(gtxt) + '\n].',
                  'Eval vm_compute in failing 0 (flat_map run_group groups).']
             if check_linked:
@@ -393,6 +413,9 @@ def lines_of(nodes, mname, v, mutate=None):
 # observation of the implementation: dumps, purity, wrapper
 
 
+PATH_REPORTS = 60     # how many elements also get their report written to a file given by name
+
+
 def dump_el(el, ec):
     cls = type(el).__name__
     if cls == 'Segment':
@@ -463,6 +486,23 @@ def check_purity_and_wrapper(run, el, ec, where):
                      report=buf.getvalue()[:800], expected=want[:800], **where)
     except Exception as ex:  # noqa
         run.fail('wrapper-report', 'validate(report_file=..., return_errors=True) raised', exc=repr(ex), **where)
+    global PATH_REPORTS
+    if PATH_REPORTS > 0:
+        PATH_REPORTS -= 1
+        import tempfile
+        fd, path = tempfile.mkstemp(prefix='c04_report_')
+        os.close(fd)
+        try:
+            rep4 = el.validate(report_file=path, return_errors=True)
+            want = ''.join('Error: %s\n' % x for x in rep4.errors) + ''.join('Warning: %s\n' % w for w in rep4.warnings)
+            got = open(path).read()
+            if got != want:
+                run.fail('wrapper-report', 'the report file (given as a path) does not list exactly the reported errors '
+                         'and warnings', report=got[:800], expected=want[:800], **where)
+        except Exception as ex:  # noqa
+            run.fail('wrapper-report', 'validate(report_file=<path>, return_errors=True) raised', exc=repr(ex), **where)
+        finally:
+            os.remove(path)
     return code, keys, nlen, rep
 
 
@@ -547,7 +587,7 @@ def segment_variants(rng, lib, sname):
 
 def segment_level(run, rng, dist):
     cases = []
-    n_seg = 20 if not run.thorough else 100000
+    n_seg = 30 if not run.thorough else 100000
     for v in S.VERSIONS:
         lib = hl7apy.load_library(v)
         ec = default_ec(v)
@@ -713,6 +753,9 @@ def message_variants(rng, lib, v, mname, ref, thorough):
         j = rng.randrange(1, len(n[3]))
         out.append(('remove-required-segment-in-group', lines[:pos[k] + j] + lines[pos[k] + j + 1:],
                     ('missing-required-not-reported', 'Missing|%s|%s' % (n[1], n[3][j][1]), None), None))
+    # a Z-segment is admitted anywhere, but what it contains is validated on its own
+    out.append(('z-segment-with-unknown-component', [lines[0], 'ZXX|b^c&d'] + lines[1:],
+                ('unknown-not-reported', 'Unknown|ZXX_1|', None), None))
     bad = lines[0].split('|')
     bad[8] = 'QQQ^Q99^QQQ_Q99' if bad[8].count('^') >= 2 else 'QQQ^Q99'
     out.append(('unknown-message-type', ['|'.join(bad)] + lines[1:],
@@ -723,7 +766,7 @@ def message_variants(rng, lib, v, mname, ref, thorough):
 def message_level(run, rng, dist):
     cases = []
     stats = {'structures': 0, 'non_structures': 0, 'not_addressable_from_text': 0}
-    per_version = 14 if not run.thorough else 100000
+    per_version = 18 if not run.thorough else 100000
     for v in S.VERSIONS:
         lib = hl7apy.load_library(v)
         good = []
@@ -784,7 +827,7 @@ def shape_term(shape, lines_iter):
     return '[' + '; '.join(out) + ']'
 
 
-def run_message_model(run, cases, per_file=12, check_linked=True):
+def run_message_model(run, cases, per_file=16, check_linked=True):
     byv = {}
     skipped = 0
     for c in cases:
@@ -804,7 +847,7 @@ def run_message_model(run, cases, per_file=12, check_linked=True):
         for k, sh in enumerate(shard(byv[v], per_file)):
             rows = ['(%s, %s, %d%%nat, %s, %d%%nat)' % ('None' if c['name'] is None else '(Some %s)' % coq_str(c['name']),
                                                         c['term'], c['code'], coq_strs(c['keys']), c['nlen']) for c in sh]
-            L = [prelude(v, S.default_ec(v)), MSG_PART, 'Definition cases : list msg_case := [\n' + ';\n'.join(rows) + '\n].',
+            L = [prelude(v, S.default_ec(v), [x for c in sh for x in c['lines']]), MSG_PART, 'Definition cases : list msg_case := [\n' + ';\n'.join(rows) + '\n].',
                  'Eval vm_compute in failing 0 (map msg_agrees cases).']
             if check_linked:
                 L.append('Eval vm_compute in failing 0 (map msg_linked cases).')
@@ -828,6 +871,71 @@ def run_message_model(run, cases, per_file=12, check_linked=True):
     return evaluated, unlinked, skipped
 
 
+PROFILE_PART = '''Definition pcase := (str * list shape * nat * list str * nat)%%type.
+Definition root : sref := %s.
+Definition pbuilt (c : pcase) : result message :=
+  match c with (name, kids, _, _, _) =>
+    match parse_structure t root with
+    | Err x => Err x
+    | Ok st => match build_nodes t TOLERANT e lenc (Some st) kids with
+               | Ok ks => Ok (mk_message (Some name) (Some st) ks)
+               | Err x => Err x
+               end
+    end end.
+Definition p_agrees (c : pcase) : bool :=
+  match c with (name, kids, code, keys, nw) =>
+    same (match pbuilt c with
+          | Err x => ((100 + exn_code x)%%nat, [], 0%%nat)
+          | Ok m => obs_log (validate_message_log t TOLERANT e m)
+          end) code keys nw end.
+'''
+
+
+def run_profile_model(run, cases):
+    """message-profile cases: the profile is serialised by the tables translator into an inline sref"""
+    if not cases:
+        return 0
+    import gen_tables
+    byroot = {}
+    for c in cases:
+        try:
+            it = iter(c['lines'])
+            c['term'] = shape_term(c['shape'], it)
+            if next(it, None) is not None or c['name'] is None:
+                continue
+        except (ValueError, StopIteration):
+            continue
+        byroot.setdefault((c['v'], id(c['root'])), []).append(c)
+    files, index = [], []
+    for (v, _), sh in byroot.items():
+        ser = gen_tables.Ser(hl7apy.load_library(v))
+        term = re.sub(r's"([^"]*)"', r'(unbs "\1")', ser.ref(sh[0]['root']))
+        if ser.bad:
+            run.note('profile not translatable (%d malformed parts)' % ser.bad)
+            continue
+        rows = ['(%s, %s, %d%%nat, %s, %d%%nat)' % (coq_str(c['name']), c['term'], c['code'], coq_strs(c['keys']), c['nlen'])
+                for c in sh]
+        L = [prelude(v, S.default_ec(v), [x for c in sh for x in c['lines']]), 'Open Scope Z_scope.', PROFILE_PART % term,
+             'Definition cases : list pcase := [\n' + ';\n'.join(rows) + '\n].',
+             'Eval vm_compute in failing 0 (map p_agrees cases).']
+        files.append(('c04p_%d_%s' % (os.getpid(), v.replace('.', '_')), '\n'.join(L) + '\n'))
+        index.append(sh)
+    results = coq_eval_many(files, timeout=1500)
+    evaluated = 0
+    for sh, (rc, out) in zip(index, results):
+        lists = parse_nat_lists(out)
+        if rc != 0 or len(lists) != 1:
+            run.disagree('profile-validator', why='case file did not evaluate', output=out[-1500:])
+            continue
+        evaluated += len(sh)
+        for i in lists[0]:
+            c = sh[i]
+            run.disagree('profile-validator', version=c['v'], structure=c['structure'], mutation=c['label'],
+                         text='\r'.join(c['lines']),
+                         implementation={'code': c['code'], 'errors': c['keys'], 'length_warnings': c['nlen']})
+    return evaluated
+
+
 # ------------------------------------------------------------------------------------------
 # message profile as the validation reference (implementation-side oracle)
 
@@ -837,9 +945,10 @@ def profile_level(run, rng, dist):
     validates against it, single-point mutations are reported"""
     path = os.path.join(os.environ.get('HL7APY_REPO', '/repo'), 'tests', 'profiles', 'iti_21')
     if not os.path.exists(path):
-        return 0
+        return 0, []
     mp = hl7apy.load_message_profile(path)
     n = 0
+    cases = []
     for mname, ref in sorted(mp.items()):
         if not structure_ok(ref):
             continue
@@ -851,7 +960,10 @@ def profile_level(run, rng, dist):
             if label == 'insert-foreign-segment':
                 # the profile is the reference of the message only; the foreign segment is found in the tables
                 pass
-            message_case(run, v, mname, label, lines, expect, ref, nodes, profile=mp, profile_name='iti_21')
+            c = message_case(run, v, mname, label, lines, expect, ref, nodes, profile=mp, profile_name='iti_21')
+            if c is not None:
+                c['root'] = ref
+                cases.append(c)
             dist['profile:' + label] = dist.get('profile:' + label, 0) + 1
             n += 1
         # field level inside the profile: required field / component removed, length warning is a warning only
@@ -866,12 +978,28 @@ def profile_level(run, rng, dist):
             lines = lines_of(nodes, mname, v)
             k = [x[1] for x in flat(nodes)].index(row[0])
             lines[k] = fill_segment(row[0], row[1], {field_index(f[0]): ''}, always_first=False)
-            message_case(run, v, mname, 'profile-drop-required-field', lines,
-                         ('missing-required-not-reported', 'Missing|%s|%s' % (row[0], f[0]), None), ref, None,
-                         profile=mp, profile_name='iti_21')
+            c = message_case(run, v, mname, 'profile-drop-required-field', lines,
+                             ('missing-required-not-reported', 'Missing|%s|%s' % (row[0], f[0]), None), ref, None,
+                             profile=mp, profile_name='iti_21')
+            if c is not None:
+                c['root'] = ref
+                cases.append(c)
             dist['profile:drop-required-field'] = dist.get('profile:drop-required-field', 0) + 1
             n += 1
-    return n
+            # a value longer than the profile allows: a WARNING only (the message stays valid)
+            leafs = [f for f in row[1][1] if not is_seq(f[1]) and f[1][5] > 0 and f[2][1] != 0 and f[1][2] in ('ST', 'ID', 'IS')]
+            if leafs:
+                f = rng.choice(leafs)
+                lines = lines_of(nodes, mname, v)
+                lines[k] = fill_segment(row[0], row[1], {field_index(f[0]): 'L' * (f[1][5] + 3)})
+                c = message_case(run, v, mname, 'profile-value-too-long', lines, ('valid',), ref, None,
+                                 profile=mp, profile_name='iti_21')
+                if c is not None:
+                    c['root'] = ref
+                    cases.append(c)
+                dist['profile:value-too-long'] = dist.get('profile:value-too-long', 0) + 1
+                n += 1
+    return n, cases
 
 
 # ------------------------------------------------------------------------------------------
@@ -896,18 +1024,18 @@ def main(argv=None):
     run.log('segment level: %d cases, %d oracle failures' % (len(seg_cases), len(run.failures)))
     msg_cases, stats = message_level(run, rng, dist)
     run.log('message level: %d cases (%s), %d oracle failures' % (len(msg_cases), stats, len(run.failures)))
-    n_profile = profile_level(run, rng, dist)
+    n_profile, prof_cases = profile_level(run, rng, dist)
     run.log('profile level: %d cases, %d oracle failures' % (n_profile, len(run.failures)))
     # ---- correspondence
     seg_model = seg_cases
-    if run.thorough and len(seg_model) > 9000:
-        seg_model = rng.sample(seg_model, 9000)
+    if run.thorough and len(seg_model) > 20000:
+        seg_model = rng.sample(seg_model, 20000)
     ev_s, unlinked_s = run_segment_model(run, seg_model, check_linked=True)
     run.log('model evaluated %d segment cases, %d disagreements, %d outside the theorem domain'
             % (ev_s, len(run.disagreements), unlinked_s))
     per_label = {}
     msg_model = []
-    cap = 2 if not run.thorough else 12
+    cap = 3 if not run.thorough else 20
     order = list(msg_cases)
     rng.shuffle(order)
     for c in order:
@@ -918,6 +1046,8 @@ def main(argv=None):
     ev_m, unlinked_m, skipped_m = run_message_model(run, msg_model)
     run.log('model evaluated %d message cases (%d skipped), %d disagreements, %d outside the theorem domain'
             % (ev_m, skipped_m, len(run.disagreements), unlinked_m))
+    ev_p = run_profile_model(run, prof_cases)
+    run.log('model evaluated %d profile cases, %d disagreements' % (ev_p, len(run.disagreements)))
     nontrivial = len({(c['v'], c['text'][:3], c['label']) for c in seg_cases if c['label'] != 'conforming-required'}) + \
         len({(c['v'], c['structure'], c['label']) for c in msg_cases if c['label'] != 'conforming-required'})
     samples = [{'level': 'segment', 'version': c['v'], 'text': c['text'][:160], 'mutation': c['label'], 'code': c['code'],
@@ -934,16 +1064,16 @@ def main(argv=None):
                 'plus messy lines and Z-segments for the model; message level: for %s message structures of every '
                 'version that can be addressed from MSH-9 the required-only and all-children instances (+ a Z-segment) '
                 'and single-point mutations (required segment removed at top level / inside a group, single segment '
-                'duplicated, foreign segment inserted, unknown message type), parsed with find_groups=True; the same '
+                'duplicated, foreign segment inserted, Z-segment holding an unknown component, unknown message type), parsed with find_groups=True; the same '
                 'families against the iti_21 message profile; every element also goes through the purity and '
                 'wrapper clauses; non-trivial/distinct = distinct (version, segment or structure, mutation) other '
                 'than the required-only conforming instance'
-                % ('all' if run.thorough else '20 seed-chosen', 'all' if run.thorough else '14 seed-chosen'),
+                % ('all' if run.thorough else '30 seed-chosen', 'all' if run.thorough else '18 seed-chosen'),
         'samples': samples,
-        'traces_validated_against_impl': ev_s + ev_m,
+        'traces_validated_against_impl': ev_s + ev_m + ev_p,
         'input_distribution': dist,
         'structures': stats,
-        'model_cases': {'segments': ev_s, 'messages': ev_m, 'messages_skipped': skipped_m},
+        'model_cases': {'segments': ev_s, 'messages': ev_m, 'messages_skipped': skipped_m, 'profile_messages': ev_p},
         'trees_outside_theorem_domain': {'segments': unlinked_s, 'messages': unlinked_m,
                                          'note': 'linked_seg / linked_message false: the conformance theorem does not '
                                                  'speak about these trees (e.g. a structure that declares a name twice); '
@@ -952,7 +1082,9 @@ def main(argv=None):
         'model fidelity claimed for ASCII text, TOLERANT level, standard tables; table-compliance warnings are not '
         'modelled (value tables are not generated) and length warnings are compared as a count',
         'message trees are rebuilt in Coq from the nesting produced by hl7apy\'s parser (the group search is C08\'s subject)',
-        'message profiles: implementation-side oracle only',
+        'case files run the model on front_tables (the generated tables with the needed entries copied to the front): '
+        'every lookup is unchanged (ValidateFacts.slookup_front) and the model reads the tables through lookups only',
+        'message profiles: the iti_21 profile is translated to an inline reference for the model (same translator as the tables)',
     ])
 
 
@@ -969,14 +1101,20 @@ def replay(run):
                 check_purity_and_wrapper(run, c['obj'], default_ec(v), dict(inp))
         else:
             lib = hl7apy.load_library(v)
-            ref = lib.MESSAGES.get(inp.get('structure'))
-            where = {k: inp[k] for k in inp if k not in ('code', 'errors', 'expected_error', 'exc')}
-            try:
-                msg = parse_message(text, validation_level=TOL, find_groups=True)
-                code, keys, nlen, rep = check_purity_and_wrapper(run, msg, S.default_ec(v), where)
-                judge(run, {'code': code, 'keys': keys}, expect, where)
-            except Exception as ex:  # noqa
-                run.fail('conforming-rejected', 'the message does not parse', exc=repr(ex), **where)
+            mname, label = inp.get('structure'), inp.get('mutation')
+            ref = lib.MESSAGES.get(mname)
+            profile = None
+            if inp.get('reference') == 'iti_21':
+                profile = hl7apy.load_message_profile(os.path.join(os.environ.get('HL7APY_REPO', '/repo'), 'tests',
+                                                                   'profiles', 'iti_21'))
+                ref = profile.get(mname)
+            nodes = None
+            if label in ('conforming-required', 'conforming-plus-z') and ref is not None:
+                nodes = instance(ref, 'req', lib)
+            elif label == 'conforming-all' and ref is not None:
+                nodes = instance(ref, 'all', lib)
+            message_case(run, v, mname, label, text.split('\r'), expect, ref, nodes, profile=profile,
+                         profile_name=None if profile is None else 'iti_21')
     for f in run.failures:
         print('replayed failure:', f['kind'], {k: f['data'][k] for k in f['data'] if k in ('errors', 'expected_error', 'code')})
     run.finish({'evaluations': 1, 'distinct_nontrivial': 2, 'rule': 'replay of one stored case', 'samples': [inp]})
